@@ -119,11 +119,18 @@ def quirks_part(line):
 
 
 def gen_inputs(ck, n, fl):
+    """inputs for the tokenizer- and tree-level oracles.  For html half of them come from the tree-structured generator
+    of the C02 check (lib/treelib.py: element families, skeletons, tables / templates / select / foreign content), so
+    that the tree-level metamorphic oracles of C03 / C04 / C08 reach the tree builder's rarer rules, not only what a
+    tokenizer grammar happens to nest"""
     r = ck.rng
     out = []
     for _ in range(n):
         k = r.random()
-        if k < 0.85:
+        if fl == "h" and k < 0.45:
+            import treelib as _TL
+            out.append(_TL.gen_tree_html(r))
+        elif k < 0.85:
             out.append(T.gen_html(r) if fl == "h" else T.gen_xml(r))
         else:
             out.append(T.gen_junk(r))
